@@ -129,6 +129,8 @@ func main() {
 			set, in = streams.C17(*seed, *n)
 		case "c17e2e":
 			set, in = streams.Deploy(*seed, *n)
+		case "c18e2e":
+			set, in = streams.DeployStream("c18e2e", *seed, *n, true)
 		case "c18":
 			set, in = streams.C18(*seed, *n)
 		case "c20":
